@@ -421,6 +421,11 @@ func Run(r *mc.Run, cfg *Config) {
 	levelSizes := []int{}
 	complete := true
 	depthDone := 0
+	var dumpStates *os.File // debugging aid: every (hash, history) pair, to compare two runs
+	if fn := os.Getenv("VERIF_FSYS_DUMP"); fn != "" {
+		dumpStates, _ = os.Create(fn)
+		defer dumpStates.Close()
+	}
 	searchStart := time.Now()
 	var lastLevelTime time.Duration
 	var lastLevelTrans int64
@@ -613,6 +618,9 @@ func Run(r *mc.Run, cfg *Config) {
 				if !dup {
 					seen[res.Hash] = struct{}{}
 				}
+				if dumpStates != nil {
+					fmt.Fprintf(dumpStates, "%s\t%s;%s\n", res.Hash, it.Path, evs)
+				}
 				if dup && depth+1 > cfg.Unmerged {
 					continue
 				}
@@ -771,8 +779,11 @@ func replayMode(r *mc.Run, cfg *Config) {
 	if err := r.ReplayCase(&c); err != nil {
 		mc.Fatal("replay: %v", err)
 	}
-	res, tail, ok := runOne(c)
+	res, tail, oc, ok := runOne(c)
 	if !ok {
+		if c.Oc == "" {
+			c.Oc = oc
+		}
 		cls, msg := crashClassifier(mc.JS(c), tail)
 		r.Violate(cls, msg, c, nil)
 		return
@@ -783,7 +794,7 @@ func replayMode(r *mc.Run, cfg *Config) {
 	fmt.Printf("replayed %v + %s: class=%s verdict=%q\n", c.Path, c.Ev, res.Class, res.VClass)
 }
 
-func runOne(c caseDescr) (result, string, bool) {
+func runOne(c caseDescr) (result, string, string, bool) {
 	exe, _ := os.Executable()
 	base := mc.TempDir("fsys-one")
 	defer os.RemoveAll(base)
@@ -792,11 +803,15 @@ func runOne(c caseDescr) (result, string, bool) {
 	var outb, errb strings.Builder
 	cmd.Stdout, cmd.Stderr = &outb, &errb
 	cmd.Run()
+	oc := ""
 	for _, ln := range strings.Split(outb.String(), "\n") {
+		if strings.HasPrefix(ln, "FSYS-OC ") {
+			oc = strings.TrimSpace(ln[len("FSYS-OC "):])
+		}
 		if strings.HasPrefix(ln, "FSYS-RESULT ") {
 			var res result
 			if json.Unmarshal([]byte(ln[len("FSYS-RESULT "):]), &res) == nil {
-				return res, "", true
+				return res, "", oc, true
 			}
 		}
 	}
@@ -804,7 +819,7 @@ func runOne(c caseDescr) (result, string, bool) {
 	if len(t) > 4000 {
 		t = t[len(t)-4000:]
 	}
-	return result{}, t, false
+	return result{}, t, oc, false
 }
 
 func oneChild(cfg *Config) {
@@ -820,6 +835,10 @@ func oneChild(cfg *Config) {
 	if c.Ev == "(replay)" {
 		rn.replay(c.Path)
 	} else {
+		pp := rn.prepare(c.Path)
+		if ev, err := ParseEvent(c.Ev); err == nil {
+			fmt.Printf("FSYS-OC %s\n", OpClass(ev, pp.pre)) // the input class, should the event itself never return
+		}
 		res, _ = rn.transition(c.Path, c.Ev, nil)
 	}
 	atomic.StoreInt64(&rn.busy, 0)
